@@ -189,7 +189,7 @@ func init() {
 		Rule: "cases 0..511: edge mask k of ALL digraphs with self-loops on 3 nodes, each with every root subset x every start (a,b,c,absent,empty) x depths 1..5 (thorough adds cases for all 65536 digraphs on 4 nodes x 16 root subsets x 6 starts x depths 1..5); " +
 			"further cases: random multigraphs of <=30 nodes with two edge types, parallel edges, repeated and dangling targets, dangling roots, dense cyclic ones. NodeGraph, NodeSiblings and NodeDescendants are compared with a BFS model " +
 			"(non-start roots reached but not expanded; left out of NodeGraph), edges bounded between 'followed' and 'among returned nodes', root list = [start], monotone in depth, 3 shuffled presentations; " +
-			"termination by the per-case CPU watchdog of the child. distinct = hash of (graph, start); non-trivial = start present and >=1 edge.",
+			"termination by the per-case CPU watchdog of the child. Every third random case extends the same list value in place and queries it again. distinct = hash of (graph, start); non-trivial = start present and >=1 edge.",
 		Assumptions: []string{"node ids unique within the list", "depth >= 1"},
 		NCases:      func(tier string) int { return c15ExhaustiveN(tier) + c15RandomN(tier) },
 		Case:        c15Case,
